@@ -26,14 +26,15 @@
 (*   Refuse       (named deviation) the REST transport may refuse to       *)
 (*                transcode a request whose path variables do not match    *)
 (*                its http rule: no request is sent at all (C04's subject) *)
-(* Rule-building steps (PickKind .. ChooseReq) let TLC enumerate / sample  *)
-(* the quantifier: routing rules x request values.                         *)
+(* Rule-building steps (PickKind .. AddParam / AddVar, SetField, StartCall) *)
+(* let TLC enumerate / sample the quantifier: routing rules x request      *)
+(* values; Again tries another request on the same rule.                   *)
 (***************************************************************************)
 EXTENDS Naturals, Sequences, FiniteSets, TLC, SequencesExt, FiniteSetsExt, Json
 
 CONSTANTS MaxParams,   \* explicit rules have 0..MaxParams routing parameters (over at most two fields)
           MaxVars,     \* implicit path templates have 1..MaxVars variables
-          Pool,        \* "small" | "mid" | "large": template / field pools offered to the builder
+          Pool,        \* "small" | "mid" | "large" | "keyword": template / field pools offered to the builder
           MaxCalls,    \* requests tried per rule in one behaviour
           Mutant       \* "none" for the design; anything else is a self-test mutant TLC must reject
 
@@ -139,7 +140,6 @@ ImplicitHeader(rl, r) == {ImplicitPair(PrimaryVars(rl)[j], r) : j \in 1..Len(Pri
 (* what the property says must arrive, independent of the step machine *)
 Expected(rl, r) == IF rl.explicit THEN LastWins(rl.params, r)
                    ELSE {<<Dot(rl.http[1][j].field), r[Dot(rl.http[1][j].field)]>> : j \in 1..Len(rl.http[1])}
-ExpectedPresent(rl, r) == rl.explicit => Expected(rl, r) # {}
 
 (* REST: the transport must be able to send when every variable of the primary binding matches strictly *)
 StrictMatch(toks, v) == /\ v # <<>> /\ \A j \in 1..Len(v) : v[j] # NoSeg
